@@ -3,6 +3,8 @@ import Relic.Driver.C12
 import Relic.Driver.PE
 import Relic.Driver.E2E
 import Relic.Driver.Cms
+import Relic.Driver.Cab
+import Relic.Driver.PS
 import Relic.Driver.C20
 import Relic.Driver.C15
 import Relic.Driver.C06
@@ -25,6 +27,8 @@ def dispatch (line : String) : String :=
   | "PE" :: rest => Relic.Driver.PE.handle rest
   | "E2E" :: rest => Relic.Driver.E2E.handle rest
   | "CMS" :: rest => Relic.Driver.Cms.handle rest
+  | "CAB" :: rest => Relic.Driver.Cab.handle rest
+  | "PS" :: rest => Relic.Driver.PS.handle rest
   | "C20" :: rest => Relic.Driver.C20.handle rest
   | "C15" :: rest => Relic.Driver.C15.handle rest
   | "C06" :: rest => Relic.Driver.C06.handle rest
